@@ -47,6 +47,8 @@ def designations(sig, view):
     yield None, False
     if view:
         yield 'context', False
+        if sig and sig[0]['k'] in ('pk', 'ko'):
+            yield sig[0]['n'], False                # the view's context designation names an ordinary parameter of the method
         return
     for i, p in enumerate(sig):
         if p['k'] in ('pk', 'ko'):
@@ -65,8 +67,10 @@ def param_sets(sig, ctx):
             yield {k: f'v_{k}' for k in sub}
 
 
-def method_cfg(sig, ctx, positional, view, deco=False):
+def method_cfg(sig, ctx, positional, view, deco=False, via_registry=False):
     m = D.M('f', sig, D.ECHO)
+    if via_registry:
+        m['via_registry'] = True          # registered on its own registry, then merged into the dispatcher (methods are copied)
     if deco:
         m['deco'] = True                  # behind an ordinary functools.wraps decorator (a plain callable even when f is async)
     if ctx:
@@ -92,7 +96,7 @@ def generate(tier, rng):
                     for deco in (False, True):
                         if deco and n >= 2 and rng.random() > (0.5 if thorough else 0.2):
                             continue
-                        cfg = D.cfg(methods=[method_cfg(sig, ctx, positional, view, deco)])
+                        cfg = D.cfg(methods=[method_cfg(sig, ctx, positional, view, deco, via_registry=(not view and rng.random() < 0.35))])
                         plist = list(param_sets(sig, ctx))
                         if n >= 3 and not thorough:
                             plist = rng.sample(plist, min(len(plist), 12))
